@@ -660,6 +660,15 @@ lzma_index_append(lzma_index *i, const lzma_allocator *allocator,
 	if (uncompressed_base + uncompressed_size > LZMA_VLI_MAX)
 		return LZMA_DATA_ERROR;
 
+	// The total uncompressed size of all Streams must stay within limits
+	// too: i->uncompressed_size and the uncompressed offsets derived from
+	// it are lzma_vli values, and lzma_index_cat() relies on it being
+	// at most LZMA_VLI_MAX when it checks for overflow. The check above
+	// covers only the last Stream, which differs from the total after
+	// lzma_index_cat().
+	if (i->uncompressed_size + uncompressed_size > LZMA_VLI_MAX)
+		return LZMA_DATA_ERROR;
+
 	// Check that the new unpadded sum will not overflow. This is
 	// checked again in index_file_size(), but the unpadded sum is
 	// passed to vli_ceil4() which expects a valid lzma_vli value.
